@@ -7,6 +7,7 @@ import (
 	"fmt"
 	"go/token"
 	"go/types"
+	"strings"
 
 	"golang.org/x/tools/go/ssa"
 )
@@ -54,6 +55,8 @@ func init() {
 	libTable["(*sync.RWMutex).RLock"] = libLock
 	libTable["(*sync.RWMutex).RUnlock"] = libUnlock
 	libTable["(*sync.Once).Do"] = libOnceDo
+	libTable["(*sync/atomic.Value).Load"] = libAtomicValueLoad
+	libTable["(*sync/atomic.Value).Store"] = libAtomicValueStore
 	for n := range noopLib {
 		libTable[n] = libNoop
 	}
@@ -93,6 +96,52 @@ func libAtomicCAS(x *Exec, fr *Frame, st *State, fn *ssa.Function, args []Val, i
 	return eq
 }
 
+// ---- atomic.Value fields: a per-field invariant on the stored interface value ----
+//
+//   //@ callback atomic:UDPSession.callbackForOOB
+//   //@   requires <invariant over v>
+//
+// Store must establish it; Load returns nil or a value satisfying it.
+
+func (x *Exec) atomicFieldKey(p *PtrVal) string {
+	if p.Base == PObj && len(p.Path) == 1 && !p.Path[0].IsIdx {
+		sty := structOf(p.BTyp)
+		return "atomic:" + x.env.te.namedKey(p.BTyp) + "." + sty.Field(p.Path[0].Field).Name()
+	}
+	return ""
+}
+
+func libAtomicValueLoad(x *Exec, fr *Frame, st *State, fn *ssa.Function, args []Val, in ssa.Instruction, rt types.Type) Val {
+	p := x.asPtr(args[0], fn.Signature.Recv().Type())
+	x.nilCheck(st, p, in.Pos(), x.src(in))
+	r := fresh("atomic.load", sortIface)
+	if con := x.env.con.Callbacks[x.atomicFieldKey(p)]; con != nil {
+		con.used = true
+		ce := &cenv{x: x, st: st, old: st, vars: map[string]cvar{"v": {v: r, t: types.NewInterfaceType(nil, nil)}}}
+		var cs []*Term
+		for _, cl := range con.Requires {
+			cs = append(cs, ce.evalBool(cl.Expr))
+		}
+		x.assume(st, mkOr(mkEq(mkSel(r, 0), mkInt(0)), mkAnd(cs...)))
+	}
+	return r
+}
+
+func libAtomicValueStore(x *Exec, fr *Frame, st *State, fn *ssa.Function, args []Val, in ssa.Instruction, rt types.Type) Val {
+	p := x.asPtr(args[0], fn.Signature.Recv().Type())
+	x.nilCheck(st, p, in.Pos(), x.src(in))
+	v := x.toTerm(args[1], nil)
+	x.assert(st, "nil", "atomic.Value.Store(nil) panics: "+x.src(in), mkNot(mkEq(mkSel(v, 0), mkInt(0))), in.Pos(), nil)
+	if con := x.env.con.Callbacks[x.atomicFieldKey(p)]; con != nil {
+		con.used = true
+		ce := &cenv{x: x, st: st, old: st, vars: map[string]cvar{"v": {v: v, t: types.NewInterfaceType(nil, nil)}}}
+		for _, cl := range con.Requires {
+			x.assertClause(st, "atomic-invariant", "store into "+strings.TrimPrefix(x.atomicFieldKey(p), "atomic:")+" requires ", ce, cl, in.Pos())
+		}
+	}
+	return nil
+}
+
 // ---- mutexes: ghost held flag per mutex location ----
 
 func (x *Exec) lockKey(p *PtrVal) (string, *Term) {
@@ -121,7 +170,74 @@ func libLock(x *Exec, fr *Frame, st *State, fn *ssa.Function, args []Val, in ssa
 		x.assert(st, "lock", "not already held: "+x.src(in), mkNot(mkSelect(h, ref)), in.Pos(), nil)
 	}
 	st.setH(k, mkStore(h, ref, tTrue))
+	x.monitorEnter(st, p, in)
 	return nil
+}
+
+// monitorKey: "Struct.field" of a mutex location inside an object.
+func (x *Exec) monitorKey(p *PtrVal) (string, *PtrVal) {
+	if p.Base == PObj && len(p.Path) == 1 && !p.Path[0].IsIdx {
+		sty := structOf(p.BTyp)
+		owner := &PtrVal{Nilc: tFalse, Base: PObj, Ref: p.Ref, BTyp: p.BTyp, Typ: p.BTyp}
+		return x.env.te.namedKey(p.BTyp) + "." + sty.Field(p.Path[0].Field).Name(), owner
+	}
+	return "", nil
+}
+
+func (x *Exec) keepOnHavoc(name string) bool {
+	if strings.HasPrefix(name, "ghost:") || name == "$alloc" {
+		return true
+	}
+	if strings.HasPrefix(name, "F:") {
+		// F:Type.field -> immutable declared as Type.field (generic arguments stripped)
+		k := strings.TrimPrefix(name, "F:")
+		if i := strings.Index(k, "["); i >= 0 {
+			if j := strings.LastIndex(k, "]"); j > i {
+				k = k[:i] + k[j+1:]
+			}
+		}
+		return x.env.con.Immutable[k]
+	}
+	return false
+}
+
+// monitorEnter: acquiring a lock with a declared monitor invariant forgets everything other
+// goroutines may have changed (all mutable heap state) and assumes the invariant.
+func (x *Exec) monitorEnter(st *State, p *PtrVal, in ssa.Instruction) {
+	key, owner := x.monitorKey(p)
+	mon := x.env.con.Monitors[key]
+	if mon == nil {
+		return
+	}
+	if x.writes != nil {
+		for _, n := range heapNames {
+			if !x.keepOnHavoc(n) {
+				*x.writes = append(*x.writes, writeRec{n, nil})
+			}
+		}
+	}
+	alloc := x.alloc(st)
+	st.havocExcept(x.keepOnHavoc)
+	na := fresh("alloc", sortInt)
+	x.assume(st, mkLe(alloc, na))
+	st.setH("$alloc", na)
+	for _, ax := range x.env.con.Axioms {
+		ce := &cenv{x: x, st: st, old: st, vars: map[string]cvar{}}
+		x.assume(st, ce.evalBool(ax.Expr))
+	}
+	ce := &cenv{x: x, st: st, old: st, vars: map[string]cvar{"self": {v: owner, t: types.NewPointer(owner.BTyp)}}}
+	x.assume(st, ce.evalBool(mon.Expr))
+	x.note("monitor " + key + ": state forgotten at Lock and invariant assumed; invariant re-proved at Unlock")
+}
+
+func (x *Exec) monitorExit(st *State, p *PtrVal, in ssa.Instruction) {
+	key, owner := x.monitorKey(p)
+	mon := x.env.con.Monitors[key]
+	if mon == nil {
+		return
+	}
+	ce := &cenv{x: x, st: st, old: st, vars: map[string]cvar{"self": {v: owner, t: types.NewPointer(owner.BTyp)}}}
+	x.assertClause(st, "monitor", "at Unlock of "+key+": ", ce, mon, in.Pos())
 }
 
 func libUnlock(x *Exec, fr *Frame, st *State, fn *ssa.Function, args []Val, in ssa.Instruction, rt types.Type) Val {
@@ -135,6 +251,7 @@ func libUnlock(x *Exec, fr *Frame, st *State, fn *ssa.Function, args []Val, in s
 	if x.checkLocks() {
 		x.assert(st, "lock", "held at unlock: "+x.src(in), mkSelect(h, ref), in.Pos(), nil)
 	}
+	x.monitorExit(st, p, in)
 	st.setH(k, mkStore(h, ref, tFalse))
 	return nil
 }
